@@ -293,6 +293,11 @@ distances are all NaN, for which the strict comparison is never true (regenerate
 C12-E adds "or the minimum is NaN") -/
 theorem greedy_descent_strictly_improves : Generated.greedyDescentStrictlyImproves = true := by decide
 
+/-- the metadata limits a request is held to are limits on bytes — the unit of the snapshot format's
+length fields — so no accepted request can write a snapshot its replicas cannot read back
+(regenerated from `Metadata.Validate`; seeded C12-F counted characters) -/
+theorem metadata_limits_are_byte_lengths : Generated.metadataLimitsAreByteLengths = true := by decide
+
 /-! ## non-vacuity -/
 
 example : (create 3 ⟨4, 2, 2, 1⟩).1 = .ok := by decide
